@@ -388,6 +388,26 @@ Proof.
     destruct (N.eqb (v_addr w) (v_addr m)); cbn [set_prio v_prio]; lia.
 Qed.
 
+Lemma accounted_in_fwd T k props l l' x :
+  Forall2 (accounted T k props) l l' -> In x l ->
+  exists y, In y l' /\ v_addr y = v_addr x /\ v_power y = v_power x.
+Proof.
+  intros F. induction F as [|a b t t' Hab F IHF]; intros Hx; [destruct Hx|].
+  destruct Hx as [->|Hx].
+  - exists b. destruct Hab as (A & P & _). split; [now left|]. split; congruence.
+  - destruct (IHF Hx) as (z & Hz & ?). exists z. split; [now right|assumption].
+Qed.
+
+Lemma accounted_in_bwd T k props l l' y :
+  Forall2 (accounted T k props) l l' -> In y l' ->
+  exists x, In x l /\ v_addr x = v_addr y /\ v_power x = v_power y.
+Proof.
+  intros F. induction F as [|a b t t' Hab F IHF]; intros Hy; [destruct Hy|].
+  destruct Hy as [->|Hy].
+  - exists a. destruct Hab as (A & P & _). split; [now left|]. split; congruence.
+  - destruct (IHF Hy) as (z & Hz & ?). exists z. split; [now right|assumption].
+Qed.
+
 (* ------------------------------------------------------------------ *)
 (** * the rounds of one call *)
 
@@ -432,12 +452,9 @@ Proof.
     split; [reflexivity|]. split; [eapply spec_rounds_snoc; eassumption|]. split; [now rewrite last_last|].
     split.
     { destruct M0' as (m0 & Hm0 & A0 & P0).
-      (* m0 is in s1; its address and power come from s *)
       destruct (spec_rounds_accounted _ _ _ _ R) as [F _].
-      clear - F Hm0 A0 P0. induction F as [|x y l l' Hxy F IHF]; [destruct Hm0|].
-      destruct Hm0 as [->|Hm0].
-      * exists x. destruct Hxy as (A & P & _). split; [now left|]. split; congruence.
-      * destruct (IHF Hm0) as (z & Hz & ?). exists z. split; [now right|assumption]. }
+      destruct (accounted_in_bwd _ _ _ _ _ _ F Hm0) as (x & Hx & Ax & Px).
+      exists x. split; [exact Hx|]. split; congruence. }
     split; [exact W'|]. split; [congruence|]. split; [congruence|].
     intros v Hv. specialize (HB' v Hv). rewrite ET in HB'. lia.
 Qed.
@@ -489,16 +506,48 @@ Proof.
   exists (with_proposer s' (Some (v_addr m, v_power m))), props, (v_addr m), (v_power m).
   cbn [with_proposer vs_vals vs_total vs_proposer].
   split; [reflexivity|]. split; [|split; [exact L|split; [reflexivity|split; [|split; [|split]]]]].
-  - exists l1, l2. rewrite EK. auto.
+  - exists l1, l2. auto.
   - destruct M0 as (m0 & Hm0 & A0 & P0).
     destruct (spec_rounds_accounted _ _ _ _ R) as [F _].
-    clear - F Hm0 A0 P0. induction F as [|x y l l' Hxy F IHF]; [destruct Hm0|].
-    destruct Hm0 as [->|Hm0].
-    + exists y. destruct Hxy as (A & P & _). split; [now left|]. split; congruence.
-    + destruct (IHF Hm0) as (z & Hz & ?). exists z. split; [now right|assumption].
+    destruct (accounted_in_fwd _ _ _ _ _ _ F Hm0) as (y & Hy & Ay & Py).
+    exists y. split; [exact Hy|]. split; congruence.
   - destruct W' as [Wv' E']. split; [exact Wv'|exact E'].
   - exact T'.
   - intros v Hv. specialize (HB' v Hv). rewrite ET2 in HB'.
     assert (Z.of_nat (S k) = Z.pos times) as EZ by (rewrite <- EK; apply positive_nat_Z).
     rewrite EZ in HB'. lia.
+Qed.
+
+(* ------------------------------------------------------------------ *)
+(** * corollaries at the level of the model *)
+
+(** the renormalisation at the start of every call (and at the end of every update) *)
+Theorem model_renormalise l T :
+  l <> [] -> 0 < T <= max_total_voting_power -> bounded B0 l ->
+  exists l1 l2,
+    rescale l (wrap64 (priority_window_size_factor * T)) = Some l1 /\ shift_by_avg l1 = Some l2 /\
+    spec_rescale T l l1 /\ spec_centre l1 l2 /\
+    within_window (2 * T) l2 /\ 0 <= sum_prio l2 < Z.of_nat (length l2) /\ bounded (2 * T) l2 /\
+    map v_addr l2 = map v_addr l /\ map v_power l2 = map v_power l.
+Proof.
+  intros NE HT HB.
+  destruct (rescale_refines l T NE HT HB) as (l1 & R & SR & HB1).
+  assert (l1 <> []) as NE1.
+  { destruct (rescale_map _ _ _ R) as [A _]. intros ->. destruct l; [congruence|discriminate]. }
+  destruct (shift_refines l1 NE1 HB1) as (l2 & S & SC).
+  destruct (spec_renormalise T _ _ _ (proj1 HT) NE SR SC) as (Win & Sum & Bnd).
+  exists l1, l2. repeat split; try assumption; try apply Sum; try (apply Bnd; assumption).
+  - destruct (rescale_map _ _ _ R) as [A _]. destruct (shift_map _ _ S) as [A' _]. congruence.
+  - destruct (rescale_map _ _ _ R) as [_ A]. destruct (shift_map _ _ S) as [_ A']. congruence.
+Qed.
+
+(** one round of the inner loop keeps the sum of the priorities *)
+Theorem increment_once_sum s B s' m :
+  wf_set s -> bounded B (vs_vals s) -> 0 <= B -> B + total_power (vs_vals s) <= max_int64 ->
+  increment_once s = Some (s', m) -> sum_prio (vs_vals s') = sum_prio (vs_vals s).
+Proof.
+  intros W HB B0' BM H.
+  destruct (increment_once_refines s B W HB B0' BM) as (s1 & m1 & E & R & _).
+  rewrite E in H. inversion H; subst. rewrite !sum_prio_eq.
+  eapply spec_round_sum; [apply W|exact R].
 Qed.
